@@ -21,8 +21,8 @@ ID = "C11"
 LEVEL = "fault_enumeration"
 RULE = (
     "Invocation = 1..4 files (27 styles by extension, unrecognised extensions, uncommentable types, binaries) x one failure reason in {holder contains "
-    "the style's multi-line terminator (with --multi-line or a multi-only style), template dropping licences / copyright / both, existing header with an "
-    "unparseable expression, unrecognised extension without fallback, --single-line / --multi-line unsupported by a named file, mutually exclusive "
+    "the style's multi-line terminator (with --multi-line or a multi-only style), holder whose tail mirrors a comment marker of the file's style (refused, or written so that it reads back whole), template dropping licences / copyright / both, existing header with an "
+    "unparseable expression, unrecognised extension without fallback (also next to a file recognised by NAME that has the same extension), --single-line / --multi-line unsupported by a named file, mutually exclusive "
     "options, missing template, a holder that cannot be encoded as UTF-8, no reason}; a FILE.license that is a directory x {none, --force-dot-license, --fallback-dot-license, --skip-unrecognised, --skip-existing} x forced --style x "
     "argument order.  Which files fail is known by construction.  Oracle: snapshot delta touches only succeeding files (or their .license), failing "
     "files and siblings untouched / not created, succeeding files carry the requested tags, exit status 1 iff a file failed else 0; usage error => exit "
@@ -30,15 +30,38 @@ RULE = (
 )
 ASSUMPTIONS = ["failure reasons are the anticipated ones of the statement; undecodable input and other crashes are C16's subject"]
 
-REASONS = ["unencodable", "terminator", "terminator", "droplic", "dropcop", "dropboth", "cdroplic", "cdropcop", "cdropboth", "bad-existing", "unrecognised", "line-unsupported", "mutex", "missing-template", "none"]
+REASONS = ["unencodable", "terminator", "terminator", "mirror-tail", "mirror-tail", "droplic", "dropcop", "dropboth", "cdroplic", "cdropcop", "cdropboth", "bad-existing", "unrecognised", "line-unsupported", "mutex", "missing-template", "none"]
+
+
+def named_twins():
+    """File names the tool recognises by NAME whose extension alone is unrecognised (CMakeLists.txt, go.mod ...), as
+    (name, suffix): a file 'twin<i><suffix>' next to one of them is an unrecognised file sharing a recognised file's extension."""
+    from pathlib import PurePath
+
+    from reuse.comment import EXTENSION_COMMENT_STYLE_MAP, FILENAME_COMMENT_STYLE_MAP
+
+    out = []
+    for name in sorted(FILENAME_COMMENT_STYLE_MAP):
+        suf = PurePath(name).suffix
+        if suf and suf.lower() not in EXTENSION_COMMENT_STYLE_MAP and AN.style_of(name) in S.STYLES and AN.style_of("twin0" + suf) is None:
+            out.append((name, suf))
+    return out
 
 
 @st.composite
 def case(draw):
     n = draw(st.integers(1, 4))
     files = []
+    twins = named_twins()
     for i in range(n):
-        kind = draw(st.sampled_from(["style"] * 6 + ["unrecognised", "uncommentable", "binary"]))
+        kind = draw(st.sampled_from(["style"] * 6 + ["unrecognised", "uncommentable", "binary"] + (["named-twin"] if twins and i + 1 < n else [])))
+        if kind == "named-twin":
+            # a file recognised by its name, and an unrecognised file with the same extension in the same invocation
+            name, suf = draw(st.sampled_from(twins))
+            if not any(f["name"] == name for f in files):
+                files.append({"name": name, "style": AN.style_of(name), "binary": False, "existing": None, "dotlicense_exists": False, "dotlicense_dir": False})
+            files.append({"name": f"twin{i}{suf}", "style": None, "binary": False, "existing": None, "dotlicense_exists": False, "dotlicense_dir": False})
+            continue
         if kind == "style":
             style = draw(st.sampled_from(sorted(S.STYLES)))
             name = f"f{i}{S.EXT_FOR_STYLE[style]}"
@@ -56,7 +79,8 @@ def case(draw):
     reason = draw(st.sampled_from(REASONS))
     return {"files": files, "reason": reason, "dot": draw(st.sampled_from([None, None, "force", "fallback", "skip"])),
             "multi": draw(st.booleans()), "forced_style": draw(st.one_of(st.none(), st.none(), st.sampled_from(sorted(S.STYLES)))),
-            "skip_existing": draw(st.integers(0, 5)) == 0, "order": draw(st.permutations(list(range(n)))), "mutex_pick": draw(st.integers(0, len(MUTEX) - 1))}
+            "skip_existing": draw(st.integers(0, 5)) == 0, "order": draw(st.permutations(list(range(len(files))))), "mutex_pick": draw(st.integers(0, len(MUTEX) - 1)),
+            "mirror_pick": draw(st.integers(0, 7))}
 
 
 def terminator_of(style):
@@ -104,6 +128,20 @@ def check(ctx, c):
             terms = [t for t in terms if t]
             term = terms[0] if terms else "*/"
             holder = f"Jane {term} Doe"
+        if reason == "mirror-tail":
+            # a holder whose tail, after a blank, mirrors a comment marker of one of the files' styles ('Example Team #' in a Python file):
+            # the reader takes such a tail for an ASCII-art frame, so the tool has to refuse that file -- or write something that reads back whole
+            marks = []
+            for f in files:
+                stl = forced or (f["style"] if f["style"] in S.STYLES else None)
+                if stl:
+                    single, multi = S.STYLES[stl]
+                    if single:
+                        marks.append(single.strip()[::-1])
+                    if multi and multi[1].strip():
+                        marks.append(multi[1].strip()[::-1])
+            marks = [m for m in marks if m and not m.isalnum()] or ["#"]
+            holder = "Example Team " + marks[c.get("mirror_pick", 0) % len(marks)]
         if reason == "unencodable":
             holder = "Jane \udcff Doe"  # what a command-line byte that is not valid UTF-8 becomes
         args = ["annotate", "--copyright", holder, "--license", "MIT", "--year", "2020"]
@@ -209,6 +247,8 @@ def check(ctx, c):
                     fails = True
                 elif uses_multi and S.STYLES[stl][1][2].strip() in holder:
                     fails = True
+            if reason == "mirror-tail" and not fails:
+                fails = None  # refused or round-tripped, judged below by reading the file back
             if old_bad and not target_is_sibling and not fails:
                 # a header whose expression does not parse is not recognised as a header: the tool puts a new
                 # one on top (success) — or refuses; the statement does not say which, so nothing is asserted
@@ -222,6 +262,22 @@ def check(ctx, c):
                 if before.get(p) != after.get(p):
                     ctx.fail(case_d, f"{f['name']} cannot be annotated ({reason}) but {p} was {'created' if p not in before else 'changed'}: {after.get(p)!r}")
         unknown = [f for f in skipped]
+        if reason == "mirror-tail" and res.code in (0, 1):
+            _r, data = tree.lint_json(root)
+            untouched = 0
+            for f in files:
+                tgt = [p for p in (f["name"], f["name"] + ".license") if p in delta]
+                if not tgt:
+                    untouched += 1
+                    continue
+                if f["existing"] == "bad" and f["name"] in tgt:
+                    continue  # the file holds an unparseable expression of its own: the linter reads nothing from it anyway
+                ent = tree.file_entry(data, f["name"]) if data else None
+                got = [x["value"] for x in ent["copyrights"]] if ent else None
+                if got is None or not any(v.endswith(holder) for v in got):
+                    ctx.fail(case_d, f"{f['name']} was rewritten for holder {holder!r} but the linter reads back {got}: a header that does not read back must be refused, the file left alone")
+            if res.code == 0 and any(f not in skipped and not any(p in delta for p in (f["name"], f["name"] + ".license")) for f in files):
+                ctx.label("mirror-tail:untouched-with-exit-0")
         for f in succeeding:
             target = f["name"] + ".license" if (goes_to_dotlicense(f) or (f["style"] is None and dot == "fallback" and not forced)) else f["name"]
             data = after.get(target)
